@@ -1,1 +1,2 @@
 
+pub mod push_model;
